@@ -185,6 +185,7 @@ struct Sim {
     sched_pos: usize,
     drift: usize,
     trace_state: bool,
+    trace_data: bool,
     sup_dead: BTreeMap<String, bool>,
 }
 
@@ -492,6 +493,7 @@ impl Sim {
                 "replq": n.repl_q.iter().map(|m| strip_id(m)).collect::<Vec<String>>(),
                 "supq": n.sup_q.iter().cloned().collect::<Vec<String>>(),
                 "supdead": self.sup_dead.get(&n.name).cloned().unwrap_or(false),
+                "data": if self.trace_data { n.node.dump() } else { json!({}) },
             }));
         }
         let mut links = vec![];
@@ -940,7 +942,8 @@ pub fn run_case(case: &J, workdir: &str, out: &mut dyn Write, n: usize) -> Resul
     let mut sim = Sim { nodes: vec![], links: vec![], tasks: BTreeMap::new(), next_task: 1, out: vec![], run: id.clone(),
                         sent: 0, user: "admin".to_string(), pwd: "adminpwd".to_string(),
                         schedule: vec![], sched_pos: 0, drift: 0,
-                        trace_state: case["trace_state"].as_bool() == Some(true), sup_dead: BTreeMap::new() };
+                        trace_state: case["trace_state"].as_bool() == Some(true),
+                        trace_data: case["trace_data"].as_bool() == Some(true), sup_dead: BTreeMap::new() };
     let empty = vec![];
     let names: Vec<String> = case["nodes"].as_array().unwrap_or(&empty).iter().map(|x| x.as_str().unwrap().to_string()).collect();
     let base = format!("{}/cl-{}-{}", workdir, std::process::id(), n);
